@@ -20,9 +20,33 @@ def make_cases(tier, seed, passes_multi, observe, classes=None, scale=1.0,
         k = passes_multi if PASSES[cfg["cls"]] is None else 1
         if cfg["cls"] in ("SingleMemory", "SingleDiskCopy") and cfg["n"] > 3000:
             k = min(k, 2)
-        out.append({"cfg": cfg, "passes": k, "observe": observe,
-                    "rseed": (seed * 7919 + i) % (2 ** 31)})
+        case = {"cfg": cfg, "passes": k, "observe": observe,
+                "rseed": (seed * 7919 + i) % (2 ** 31),
+                # consume the schedule with next() or with the documented
+                # for-loop / break idiom (a new loop per adjoint pass)
+                "protocol": "for" if (i + seed) % 3 == 1 else "next"}
+        # a quarter of the cases run while a sibling schedule (same class,
+        # one parameter changed or none) is paused half-way and kept alive
+        if (i * 7 + seed) % 4 == 2 and cfg["cls"] not in ("SingleMemory",
+                                                          "None"):
+            from ..workloads import single_param_neighbours
+            nb = single_param_neighbours(cfg) + [dict(cfg)]
+            case["sibling"] = nb[(i // 4) % len(nb)]
+        out.append(case)
     return out
+
+
+def decorate(case, i, seed=0, frac=4):
+    """Give a {"cfg": ...} case a consumption protocol and, for every
+    frac-th case, a paused sibling schedule (see make_cases)."""
+    cfg = case["cfg"]
+    case.setdefault("protocol", "for" if (i + seed) % 3 == 1 else "next")
+    if (i * 7 + seed) % frac == 2 and cfg["cls"] not in ("SingleMemory",
+                                                        "None"):
+        from ..workloads import single_param_neighbours
+        nb = single_param_neighbours(cfg) + [dict(cfg)]
+        case.setdefault("sibling", nb[(i // frac) % len(nb)])
+    return case
 
 
 def make_context(tier, seed, which=None):
@@ -32,9 +56,31 @@ def make_context(tier, seed, which=None):
 
 def run_stream_case(case, record=False):
     cfg = case["cfg"]
+    sib = None
+    if case.get("sibling"):
+        # paused sibling: advanced past EndForward (it then holds its
+        # checkpoints), resumed and finished after the observed stream
+        from ..drivers import Stepper
+        from ..common import EndForward
+        try:
+            sib = Stepper(case["sibling"], passes=1)
+            for _ in range(400):
+                a = sib.step()
+                if a is None or isinstance(a, EndForward):
+                    break
+            for _ in range(case.get("rseed", 0) % 5):
+                sib.step()
+        except Exception:
+            sib = None
     res = run_stream(cfg, passes=case.get("passes", 1),
                      observe=case.get("observe"),
-                     rng=random.Random(case.get("rseed", 0)), record=record)
+                     rng=random.Random(case.get("rseed", 0)), record=record,
+                     protocol=case.get("protocol", "next"))
+    if sib is not None:
+        try:
+            sib.run()
+        except Exception:
+            pass
     return res
 
 
